@@ -55,7 +55,7 @@ def generate(rng, tier):
     steps = []
     nsteps = rng.choice([1, 1, 2, 3])
     for s in range(nsteps):
-        rep = replcheck.gen_replacement(rng, pel, P, mode=rng.choice(["equal", "equal_subst", "larger", "larger", "smaller", "identity", "disjoint"]))
+        rep = replcheck.gen_replacement(rng, pel, P, mode=rng.choice(["equal", "equal_subst", "larger", "larger", "smaller", "identity", "disjoint", "relaxed"]))
         if not rep["elements"]:
             rep = replcheck.gen_replacement(rng, pel, P, mode="equal")
         scheme = "%s_%d" if rng.random() < 0.35 else None      # same label scheme as the structure: labels may collide
